@@ -349,11 +349,48 @@ class _AioWsE2E(CW._AioWs):
 
 # ---- conversation driver ---------------------------------------------------------------------
 
-def run_conversation(cimpl, simpl, scfg, script, seed=0, latency=0, http_latency=0, preempt=False):
+def run_conversation(cimpl, simpl, scfg, script, seed=0, latency=0, http_latency=0, preempt=False,
+                     time_yield=False):
     """script ops: connect(tr) csend(k) ssend(k) cdisc sdisc tick(t).  Returns the E2E trace:
     a list of steps [{'op', 'ev': [application events of both sides, in order]}] + facts."""
     e = E2E(cimpl, simpl, scfg, seed=seed, latency=latency, http_latency=http_latency,
             preempt=preempt)
+    unpatch = None
+    if time_yield:
+        # time.time() is a switch point; inside Socket.check_ping_timeout() the service task may
+        # even be pre-empted for a few ticks: that delays no protocol step, so a live peer must
+        # survive it
+        e.hub.time_yield = TICK
+        import engineio.socket as ES
+        orig = ES.Socket.check_ping_timeout
+
+        import engineio.server as ESV
+        orig_service = ESV.Server._service_task
+
+        def checker(self_):
+            # only the service task's sweep: the ping thread and application sends also pass
+            # through the checker (inside send()), but delaying those delays the PING / the
+            # message itself, which is not the situation of interest
+            t = e.hub.current
+            ok = t is not None and getattr(t, 'is_service', False)
+            if ok:
+                t.long_ok = getattr(t, 'long_ok', 0) + 1
+            try:
+                return orig(self_)
+            finally:
+                if ok:
+                    t.long_ok -= 1
+
+        def service(self_):
+            if e.hub.current is not None:
+                e.hub.current.is_service = True
+            return orig_service(self_)
+        ES.Socket.check_ping_timeout = checker
+        ESV.Server._service_task = service
+
+        def unpatch():
+            ES.Socket.check_ping_timeout = orig
+            ESV.Server._service_task = orig_service
     steps = []
     facts = {'pair': cimpl + '-client/' + simpl + '-server', 'scfg': dict(e.sw.cfg)}
     nc = ns = 0
@@ -442,6 +479,20 @@ def run_conversation(cimpl, simpl, scfg, script, seed=0, latency=0, http_latency
             elif k == 'tick':
                 e.advance_to(hubmod.EPOCH + op['t'] * TICK)
                 a = {'t': op['t']}
+            elif k == 'tsend':
+                # an application send() issued at the very moment the clock advances: it runs
+                # concurrently with whatever the timers start (ping threads, the service task)
+                slot = max(e.sw.sids) if e.sw.sids else None
+                acc = []
+                if slot is not None:
+                    before = e.sw.sent.get(slot, 0)
+                    e.sw.app_send(slot)
+                e.advance_to(hubmod.EPOCH + op['t'] * TICK)
+                e.quiesce()
+                if slot is not None and e.sw.sent.get(slot, 0) > before:
+                    acc.append(e.sw.sent[slot])
+                a = {'k': 1, 'acc': acc}
+                k = 'ssend'
             else:
                 raise ValueError(k)
             e.quiesce()
@@ -455,6 +506,11 @@ def run_conversation(cimpl, simpl, scfg, script, seed=0, latency=0, http_latency
                           'str': ('websocket' if so is not None and so.upgraded else 'polling')})
         facts['client_calls_blocked'] = [c['name'] for c in e.cw.calls.values() if not c['done']]
         facts['client_handlers_not_run'] = e.c_fired - e.c_ran
+        facts['server_api_exceptions'] = [
+            '%s: %s' % (type(r['exc']).__name__, r['exc']) for k_, r in e.sw.reqs.items()
+            if isinstance(r, dict) and r.get('exc') is not None]
     finally:
         e.close()
+        if unpatch:
+            unpatch()
     return steps, facts
